@@ -328,15 +328,15 @@ Definition scalar_to_bytes (z : Z) : bytes := be_enc 32 (Z.to_N z).
 Definition tweak_hash (kx root : bytes) : bytes := tagged_from_mid tweak_pre tweak_mid (kx ++ root).
 Definition tweak_scalar (kx root : bytes) : Z := scalar_of_bytes (tweak_hash kx root).
 
-(* TweakTaprootPrivKey.  privKeyScalar := &privKey.Key is a POINTER into the caller's
-   key: Negate() and Add() both work in place, so the caller's key ends up holding the
-   tweaked scalar.  Returns (returned key, caller's key afterwards).
+(* TweakTaprootPrivKey.  privKeyScalar := privKey.Key is a COPY of the caller's scalar
+   (fix fefe606): Negate() and Add() work in place on the copy.
+   Returns (returned key, caller's key afterwards).
    pk_odd / pkx: parity and x-only bytes of d*G (curve arithmetic: supplied). *)
 Definition tweak_priv_with (TS : bytes -> bytes -> Z) (pk_odd : bool) (pkx : bytes) (d : Z) (root : bytes) : Z * Z :=
   let d1 := if pk_odd then ((tap_n - d) mod tap_n)%Z else d in
   let t := TS pkx root in
   let d2 := ((d1 + t) mod tap_n)%Z in
-  (d2, d2).
+  (d2, d).
 Definition tweak_priv := tweak_priv_with tweak_scalar.
 
 (* ---------- curve-level functions over an abstract group ---------- *)
